@@ -293,10 +293,10 @@ func checkAtState(c *fw.Ctx) {
 	state := "(gmsl.StateProvider).StateBeforeEvent(param:sp,param:ctx,(gmsl.PDU).Version(param:eventToVerify),param:eventToVerify," + ids + "#0)"
 	vars := []tvar{{"idsOK", tf}, {"allow", tf}, {"allInState", tf}, {"ctxOK", tf}, {"stateOK", tf}, {"authOK", tf}}
 	ip := &interp{bools: map[string]string{
-		"(" + ids + "#1 == nil)":   "idsOK",
-		"param:allowValidation":    "allow",
+		"(" + ids + "#1 == nil)":                    "idsOK",
+		"param:allowValidation":                     "allow",
 		"((context.Context).Err(param:ctx) == nil)": "ctxOK",
-		"(" + state + "#1 == nil)": "stateOK",
+		"(" + state + "#1 == nil)":                  "stateOK",
 		"(gmsl.checkAllowedByAuthEvents(param:eventToVerify," + state + "#0,nil,param:userIDForSender) == nil)": "authOK",
 	}, match: func(atom string, a asg) (bool, bool) {
 		if atom == "((phi(-1|<cycle>) + 1) < builtin.len((gmsl.PDU).AuthEventIDs(param:eventToVerify)))" {
